@@ -3,7 +3,7 @@ import coqfmt as cf
 from props.c05 import rand_formula, build_expr
 
 RULE = ("cases = random edit histories (length <= 12) over item assignment, insert (any integer index incl. negative "
-        "and out of range), append, del, pop(), pop(i), extend, +=, slice deletion and reverse, with formulas of mixed "
+        "and out of range), append, del, pop(), pop(i), extend, +=, slice deletion, reverse and aliasing probes (edit a slice / keep a slice across an edit), with formulas of mixed "
         "widths 1-3 x 1-3 over <=4 units, applied to a real Provenance and to a Python list of the same expressions; "
         "after the construction and after EVERY edit: len, every row read back (literals and truth value), query under "
         "3 assignments, stored widths; non-trivial = at least 2 edits and (2 different kinds of edit or a change of the stored widths); "
@@ -32,7 +32,7 @@ def gen(rng, tier):
         for _ in range(rng.randint(1, 12)):
             kinds = ["insert", "insert", "append", "extend", "iadd"]
             if ln > 0:
-                kinds += ["set", "set", "del", "pop", "popat", "delslice", "reverse"]
+                kinds += ["set", "set", "del", "pop", "popat", "delslice", "reverse", "probe"]
             kd = rng.choice(kinds)
             if kd == "set":
                 ops.append(["set", rng.randrange(-ln, ln), f0()])
@@ -55,6 +55,9 @@ def gen(rng, tier):
             elif kd == "popat":
                 ops.append(["popat", rng.randrange(-ln, ln)])
                 ln -= 1
+            elif kd == "probe":
+                # q = p[slice]; q[0] = f  -- must not touch p (a slice of a list is a new list)
+                ops.append(["probe", [rng.choice([None, 0, 1]), rng.choice([None, ln, -1]), rng.choice([None, 1, 2])], f0()])
             elif kd == "delslice":
                 s = [rng.choice([None, 0, 1, -1, -2]), rng.choice([None, 1, 2, -1, ln]), rng.choice([None, 1, 2, -1])]
                 ops.append(["delslice", s])
@@ -115,8 +118,14 @@ def run_impl(c):
         return {"len": len(p), "view": view, "queries": qs, "shape": [int(p.data.shape[1]), int(p.data.shape[2])]}
 
     obs = [observe()]
+
+    def snapshot(q):
+        return [lits_of(q[i]) for i in range(len(q))]
+
     for op in c["ops"]:
         kd = op[0]
+        watcher = p[0:len(p)]              # a full slice taken BEFORE the edit must not see the edit
+        watcher_before = snapshot(watcher)
         if kd == "set":
             e = mk(op[2]); p[op[1]] = e; ref[op[1]] = e
         elif kd == "insert":
@@ -142,6 +151,15 @@ def run_impl(c):
             del p[slice(*op[1])]; del ref[slice(*op[1])]
         elif kd == "reverse":
             p.reverse(); ref.reverse()
+        elif kd == "probe":
+            q = p[slice(*op[1])]
+            qref = ref[slice(*op[1])]
+            if len(q) != len(qref):
+                state["ok"] = False
+            if len(q) > 0:
+                q[0] = mk(op[2])       # ref (the list) is untouched by an edit of its slice
+        if snapshot(watcher) != watcher_before:
+            state["ok"] = False
         obs.append(observe())
     return {"obs": obs, "list_ok": state["ok"]}
 
@@ -169,6 +187,8 @@ def emit(c, o):
         elif kd == "delslice":
             pos = list(range(*slice(*op[1]).indices(ln)))
             rops.append("(RDelMany %s)" % cf.nats(pos)); ln -= len(pos)
+        elif kd == "probe":
+            rops.append("(RDelMany [])")      # editing a slice is a no-op on the container itself
         else:
             rops.append("RReverse")
     obs = cf.lst(["(mkObs %s %s %s (%s, %s))" % (cf.nat(ob["len"]), cf.dnfs(ob["view"]),
